@@ -31,9 +31,11 @@ fn check_one(src: &str) -> Option<(String, String)> {
         let mut text = String::new();
         let mut pos: u32 = 0;
         let mut problem: Option<String> = None;
+        let mut token_ranges: Vec<(usize, usize)> = Vec::new();
         for el in root.descendants_with_tokens() {
             if let Some(tok) = el.as_token() {
                 let r = tok.text_range();
+                token_ranges.push((u32::from(r.start()) as usize, u32::from(r.end()) as usize));
                 if u32::from(r.start()) != pos && problem.is_none() {
                     problem = Some(format!("token range {:?} does not start at {}", r, pos));
                 }
@@ -58,6 +60,9 @@ fn check_one(src: &str) -> Option<(String, String)> {
             let (s, t) = (u32::from(e.range.start()) as usize, u32::from(e.range.end()) as usize);
             if t > src.len() || s > t || !src.is_char_boundary(s) || !src.is_char_boundary(t) {
                 range_problem = Some(format!("syntax error range {}..{} outside the text / not on char boundaries", s, t));
+            } else if !(s == src.len() && t == src.len()) && !token_ranges.contains(&(s, t)) {
+                // C20, syntax errors: the whole range of a token, or empty at the end of the text
+                range_problem = Some(format!("syntax error range {}..{} is neither a whole token nor the empty range at the end of the text", s, t));
             }
         }
         (problem, range_problem)
@@ -93,6 +98,8 @@ const CONTEXTS: &[(&str, &str)] = &[
     ("fn f(", ") {}"),
     ("const c: ", " = 1"),
     ("fn f() { g(", ") }"),
+    ("fn f() { ", ""),
+    ("\u{1F4A3} ", ""),
 ];
 
 fn main() {
